@@ -781,6 +781,18 @@ func HoistShape(p *load.Prog, r *oblig.Report, rule string) {
 			if strings.Join(shape, " ") != "x[p] x[:p] x[p+1:]" || !samePos {
 				okAll = false
 				r.Bad(rule, construct, p.Pos(ret.Pos()), fmt.Sprintf("the hoisted list is %s (one position variable: %v); required x[p] x[:p] x[p+1:] so that only the direct assignment moves and every other operand keeps its order", strings.Join(shape, " ++ "), samePos))
+			} else if pos != nil {
+				// the hoist happens for every position after the first: the conditions that dominate this return, read as
+				// conditions on the position found (and on the length of a list that holds it), are true for p = 1 and p = 2
+				for _, k := range []int64{1, 2} {
+					for _, ce := range DominatingConds(b) {
+						val, known := evalHoistCond(ce.Cond, pos, x, k)
+						if known && val != ce.Branch {
+							okAll = false
+							r.Bad(rule, construct+":condition", p.Pos(ce.If.Pos()), fmt.Sprintf("a direct assignment found at position %d is not moved to the front: the hoisted list is returned only under %s being %v, which fails for that position; the printer then emits it in the middle, which the parser rejects or reads differently", k, stripUnique(AccessPath(ce.Cond)), ce.Branch))
+						}
+					}
+				}
 			}
 		}
 	}
@@ -1300,4 +1312,70 @@ func StackDiscipline(p *load.Prog, r *oblig.Report, rule string, funcs []*ssa.Fu
 			r.OK(rule, construct, "-", "store-kinds", want[n])
 		}
 	}
+}
+
+// evalHoistCond evaluates a condition that only speaks about the position found (pos = k) and the length of the list
+// (taken as k+2, a list that holds that position and more); unknown when it speaks about anything else.
+func evalHoistCond(c ssa.Value, pos ssa.Value, list ssa.Value, k int64) (bool, bool) {
+	var evalInt func(v ssa.Value, depth int) (int64, bool)
+	evalInt = func(v ssa.Value, depth int) (int64, bool) {
+		if depth > 6 {
+			return 0, false
+		}
+		if v == pos {
+			return k, true
+		}
+		switch x := v.(type) {
+		case *ssa.Const:
+			if x.Value != nil && x.Value.Kind() == constant.Int {
+				return x.Int64(), true
+			}
+		case *ssa.Call:
+			if b, ok := x.Common().Value.(*ssa.Builtin); ok && b.Name() == "len" && len(x.Common().Args) == 1 && x.Common().Args[0] == list {
+				return k + 2, true
+			}
+		case *ssa.BinOp:
+			l, ok1 := evalInt(x.X, depth+1)
+			r, ok2 := evalInt(x.Y, depth+1)
+			if ok1 && ok2 {
+				switch x.Op {
+				case token.ADD:
+					return l + r, true
+				case token.SUB:
+					return l - r, true
+				}
+			}
+		case *ssa.Convert:
+			return evalInt(x.X, depth+1)
+		}
+		return 0, false
+	}
+	switch x := c.(type) {
+	case *ssa.UnOp:
+		if x.Op == token.NOT {
+			v, ok := evalHoistCond(x.X, pos, list, k)
+			return !v, ok
+		}
+	case *ssa.BinOp:
+		l, ok1 := evalInt(x.X, 0)
+		r, ok2 := evalInt(x.Y, 0)
+		if !ok1 || !ok2 {
+			return false, false
+		}
+		switch x.Op {
+		case token.EQL:
+			return l == r, true
+		case token.NEQ:
+			return l != r, true
+		case token.LSS:
+			return l < r, true
+		case token.LEQ:
+			return l <= r, true
+		case token.GTR:
+			return l > r, true
+		case token.GEQ:
+			return l >= r, true
+		}
+	}
+	return false, false
 }
